@@ -3,7 +3,7 @@ CONSTANTS
   Threads = {"o", "s1", "s2", "s3"}
   Prog <- Prog_last
   L = 3
-  CapSet = {1, 2, 4}
+  CapSet = {4}
   Crew = "one"
   Rich = TRUE
 INIT InitAll
